@@ -85,6 +85,7 @@ func NewClientWithLogger(
 		make(map[string]*executionEntry),
 		make(map[string]chan<- schema.Input),
 		sync.Mutex{},
+		sync.Mutex{},
 		false,
 		false,
 		ctx,
@@ -117,7 +118,8 @@ type client struct {
 	runningStepResultEntries         map[string]*executionEntry     // Run ID to results
 	runningStepEmittedSignalChannels map[string]chan<- schema.Input // Run ID to channel of signals emitted from steps
 	mutex                            sync.Mutex
-	readLoopRunning                  bool // To prevent duplicate loops across multiple step executions.
+	encoderMutex                     sync.Mutex // Serialises writes to the encoder; never held together with mutex.
+	readLoopRunning                  bool       // To prevent duplicate loops across multiple step executions.
 	done                             bool
 	context                          context.Context
 	cancelFunc                       context.CancelFunc
@@ -125,8 +127,10 @@ type client struct {
 }
 
 func (c *client) sendCBOR(message any) error {
-	c.mutex.Lock()
-	defer c.mutex.Unlock()
+	// The write can block for as long as the peer does not read. It must not hold the state mutex meanwhile: the read
+	// loop needs that mutex to deliver the very messages the peer has to get rid of before it reads again.
+	c.encoderMutex.Lock()
+	defer c.encoderMutex.Unlock()
 	return c.encoder.Encode(message)
 }
 
